@@ -180,7 +180,7 @@ def run_stream(seed, n, profile, prop_ids, want_lockstep=True, workers=None, sta
     # input) must not hang the check.  Chunks that are not back in time are abandoned with their processes and
     # tried once more in a fresh pool; what is still missing then is reported case by case as an
     # infrastructure failure of those cases ("infra"), which the caller turns into a verdict by its rules.
-    limit = float(os.environ.get("VERIF_POOL_LIMIT", 900 + 3.0 * max(len(c) for c in chunks)))
+    limit = float(os.environ.get("VERIF_POOL_LIMIT", 300 + 3.0 * max(len(c) for c in chunks)))
 
     def attempt(todo):
         out, left = [], []
